@@ -615,3 +615,110 @@ Qed.
     open(os.path.join(GEN, 'JumpStep.v'), 'w').write(thm)
     ok, log = compile_gen('JumpStep.v', timeout=600)
     return ('jumpstep: generated loop body + gen_step_refines (refines Model.C04.step)', ok, 'ok' if ok else log[-1500:])
+
+
+# ---------------------------------------------------------------- unit: rdf state code and state naming (C11)
+def _num(node):
+    if isinstance(node, ast.Constant) and isinstance(node.value, (int, float)) and float(node.value) == int(node.value):
+        return int(node.value)
+    raise Unsupported('constant ' + ast.dump(node)[:40])
+
+
+def _linear3(node, names):
+    """a*1eX + b*1eY + c  ->  coefficients for the three names (fail-closed)"""
+    coef = {}
+
+    def term(n):
+        if isinstance(n, ast.Name) and n.id in names:
+            coef[n.id] = coef.get(n.id, 0) + 1
+        elif isinstance(n, ast.BinOp) and isinstance(n.op, ast.Mult) and isinstance(n.left, ast.Name) and n.left.id in names:
+            coef[n.left.id] = coef.get(n.left.id, 0) + _num(n.right)
+        elif isinstance(n, ast.BinOp) and isinstance(n.op, ast.Add):
+            term(n.left)
+            term(n.right)
+        else:
+            raise Unsupported('state code term ' + ast.dump(n)[:60])
+    term(node)
+    if set(coef) != set(names):
+        raise Unsupported(f'state code uses {sorted(coef)}')
+    return [coef[n] for n in names]
+
+
+def state_code_unit():
+    tree = _parse('rdf.py')
+    f = _find_func(tree, None, '_get_states')
+    # innermost loop body: if i != -1 ... elif j == -1 or k == -1 ... else ...; states[int(<code>)] = state
+    loops = [n for n in ast.walk(f) if isinstance(n, ast.For)]
+    if [l.target.id for l in loops if isinstance(l.target, ast.Name)] != ['i', 'j', 'k']:
+        raise Unsupported('loop nest over i, j, k')
+    body = loops[-1].body
+    if len(body) != 2 or not isinstance(body[0], ast.If) or not isinstance(body[1], ast.Assign):
+        raise Unsupported('innermost body shape')
+    iff, asg = body
+
+    def is_cmp(t, name, op, val):
+        return (isinstance(t, ast.Compare) and isinstance(t.left, ast.Name) and t.left.id == name and isinstance(t.ops[0], op)
+                and isinstance(t.comparators[0], ast.UnaryOp) and _num(t.comparators[0].operand) == val)
+
+    def label_expr(n):
+        # '@' + unique_labels[i]  |  '~>' + unique_labels[j]  |  unique_labels[j] + '->' + unique_labels[k]
+        def lab(x):
+            if isinstance(x, ast.Subscript) and isinstance(x.value, ast.Name) and x.value.id == 'unique_labels' and isinstance(x.slice, ast.Name):
+                return x.slice.id
+            raise Unsupported('label reference')
+        if isinstance(n, ast.BinOp) and isinstance(n.op, ast.Add):
+            if isinstance(n.left, ast.Constant) and n.left.value == '@':
+                return ('At', lab(n.right))
+            if isinstance(n.left, ast.Constant) and n.left.value == '~>':
+                return ('Leaving', lab(n.right))
+            if isinstance(n.left, ast.BinOp) and isinstance(n.left.right, ast.Constant) and n.left.right.value == '->':
+                return ('Transit', lab(n.left.left), lab(n.right))
+        raise Unsupported('state name expression')
+
+    if not is_cmp(iff.test, 'i', ast.NotEq, 1):
+        raise Unsupported('first branch test')
+    b1 = label_expr(iff.body[0].value)
+    el = iff.orelse[0]
+    if not (isinstance(el, ast.If) and isinstance(el.test, ast.BoolOp) and isinstance(el.test.op, ast.Or)
+            and is_cmp(el.test.values[0], 'j', ast.Eq, 1) and is_cmp(el.test.values[1], 'k', ast.Eq, 1)):
+        raise Unsupported('second branch test')
+    b2 = label_expr(el.body[0].value)
+    b3 = label_expr(el.orelse[0].value)
+    if (b1, b2, b3) != (('At', 'i'), ('Leaving', 'j'), ('Transit', 'j', 'k')):
+        raise Unsupported(f'naming branches {b1} {b2} {b3}')
+    key = asg.targets[0].slice
+    if not (isinstance(key, ast.Call) and getattr(key.func, 'id', '') == 'int'):
+        raise Unsupported('state key is not int(...)')
+    c1 = _linear3(key.args[0], ['i', 'j', 'k'])
+    # _get_states_array must use the same coefficients
+    g = _find_func(tree, None, '_get_states_array')
+    ret = [n for n in ast.walk(g) if isinstance(n, ast.Assign) and isinstance(n.targets[0], ast.Name) and n.targets[0].id == 'states_array']
+    v = ret[0].value
+    if not (isinstance(v, ast.Call) and getattr(v.func, 'attr', '') == 'astype'):
+        raise Unsupported('states_array expression')
+    c2 = _linear3(v.func.value, ['states', 'states_prev', 'states_next'])
+    # _uniqify_labels: mapping = [-1] + [...]; return mapping[arr + 1]
+    u = _find_func(tree, None, '_uniqify_labels')
+    src = ast.unparse(u)
+    if 'np.array([-1] + [unique_labels.index(label) for label in labels])' not in src or 'return mapping[np.asarray(arr) + 1]' not in src:
+        raise Unsupported('_uniqify_labels body')
+    return c1, c2
+
+
+def gen_state_code():
+    os.makedirs(GEN, exist_ok=True)
+    try:
+        c1, c2 = state_code_unit()
+    except Unsupported as e:
+        return ('statecode', False, f'translator: unsupported {e}')
+    lines = ['(* GENERATED from /repo/src/gemdat/rdf.py (_get_states, _get_states_array, _uniqify_labels) on every run -- do not edit *)',
+             'From GV Require Import Base.Prelude Model.C11.',
+             f'Definition gen_code_names (i j k : Z) : Z := i * {c1[0]} + j * {c1[1]} + k * {c1[2]}.',
+             f'Definition gen_code_array (s p n : Z) : Z := s * {c2[0]} + p * {c2[1]} + n * {c2[2]}.',
+             '(* the table of names and the array of states use the same code, which is the injective one of the model *)',
+             'Theorem gen_code_is_model : forall i j k, gen_code_names i j k = code i j k /\\ gen_code_array i j k = code i j k.',
+             'Proof. intros. unfold gen_code_names, gen_code_array, code. split; lia. Qed.']
+    open(os.path.join(GEN, 'StateCode.v'), 'w').write('\n'.join(lines) + '\n')
+    ok, log = compile_gen('StateCode.v')
+    return ('statecode: state code of names and of the state array + naming branches + label map shape', ok,
+            'ok' if ok else f'generated codes {c1} / {c2}: ' + log[-400:])
